@@ -25,7 +25,7 @@ RULE = (
     "every field offset, == and hash of two independently built copies are queried, while the harness counts the elements enumerated "
     "inside the solver (itertools.product / combinations_with_replacement in the symbolic module) and the size of every numerical "
     "expansion.  Oracles: no expansion larger than 64 elements; work(huge) <= 8 * work(small) + 20000; work never exceeds a fixed budget "
-    "(an enumerating implementation is cut off deterministically instead of hanging); no explicit leaf set larger than 64 elements is built; and, as a backstop for growth that bypasses the counted primitives, CPU time (process time, load-insensitive) of the huge variant <= 50 x small + 5 s with a 12 s CPU cut-off.  No wall-clock oracle.  Non-trivial = a capacity >= "
+    "(an enumerating implementation is cut off deterministically instead of hanging); no explicit leaf set larger than 64 elements is built; and, as a backstop for growth that bypasses the counted primitives, CPU time (process time, load-insensitive) of the huge variant <= 50 x small + 5 s with an 8 s CPU cut-off.  No wall-clock oracle.  Non-trivial = a capacity >= "
     "2**32 and a variable-length member nested under another."
 )
 ASSUMPTIONS = [
@@ -36,7 +36,7 @@ BUDGET = {"quick": 400, "thorough": 8000}
 
 WORK_BUDGET = 40_000_000
 MAX_EXPANSION = 64
-CPU_BUDGET_S = 12.0  # CPU seconds (ITIMER_VIRTUAL: insensitive to machine load) per variant; legitimate cases need milliseconds
+CPU_BUDGET_S = 8.0  # CPU seconds (ITIMER_VIRTUAL: insensitive to machine load) per variant; legitimate cases need milliseconds
 
 
 class WorkBudgetExceeded(BaseException):
@@ -76,8 +76,11 @@ class Meter:
     def product(self, *a: typing.Any, **kw: typing.Any) -> typing.Any:
         return self._count(_real_itertools.product(*a, **kw))
 
-    def combinations_with_replacement(self, *a: typing.Any, **kw: typing.Any) -> typing.Any:
-        return self._count(_real_itertools.combinations_with_replacement(*a, **kw))
+    def combinations_with_replacement(self, iterable: typing.Any, r: int) -> typing.Any:
+        if r > self.budget:  # the very first tuple would have more elements than the whole budget (and would not fit in memory)
+            self.work += r
+            raise WorkBudgetExceeded()
+        return self._count(_real_itertools.combinations_with_replacement(iterable, r))
 
 
 _installed: typing.Dict[str, typing.Any] = {}
@@ -98,6 +101,14 @@ def install(meter: Meter) -> None:
         _installed["leaf_init"] = sym.NullaryOperator.__init__
 
         def leaf_init(self: typing.Any, values: typing.Any) -> None:
+            cur = _installed.get("meter")
+            try:
+                n_before = len(values)
+            except TypeError:
+                n_before = 0
+            if cur is not None and n_before > cur.budget:  # e.g. a range over an extent: do not even try to materialise it
+                cur.max_leaf = max(cur.max_leaf, n_before)
+                raise WorkBudgetExceeded()
             _installed["leaf_init"](self, values)
             cur = _installed.get("meter")
             if cur is not None:
